@@ -61,7 +61,7 @@ EXT_FOR = {
 TARGET_STATES = ["absent", "file", "empty_folder", "nonempty_folder"]
 FLAGS = ["unset", "false", "true"]
 MATRIX_FAULTS = ["none", "plugin_entry", "open_fail_1", "open_fail_2", "torn_crash_1"]
-RESULT_NAMES = ["fit", "fit2", "fi", "refit", "fit_run_b", "fit_run_0000", "a_run_", None]
+RESULT_NAMES = ["fit", "fit2", "fi", "refit", "fit_run_b", "fit_run_2", "fit_run_0000", "a_run_", None]
 RUN_PATTERN = re.compile(r".+_run_\d{4}$")
 
 MODEL_YML = """
